@@ -13,50 +13,18 @@
 /// The execution path may also differ, which can be used to refine the stub
 /// logic.
 #[test]
-fn kani_concrete_playback_c19_str_duration_20_digits_2810586809988379323() {
+fn kani_concrete_playback_c19_str_duration_20_digits_16784808722055032552() {
     let concrete_vals: Vec<Vec<u8>> = vec![
-        // 5
-        vec![5],
-        // 6
-        vec![6],
-        // 3
-        vec![3],
-        // 9
-        vec![9],
         // 8
         vec![8],
-        // 6
-        vec![6],
-        // 9
-        vec![9],
-        // 8
-        vec![8],
-        // 9
-        vec![9],
-        // 6
-        vec![6],
-        // 8
-        vec![8],
-        // 8
-        vec![8],
-        // 9
-        vec![9],
-        // 9
-        vec![9],
-        // 5
-        vec![5],
-        // 8
-        vec![8],
-        // 9
-        vec![9],
-        // 9
-        vec![9],
-        // 9
-        vec![9],
-        // 9
-        vec![9],
-        // 109
-        vec![109],
+        // 0
+        vec![0],
+        // 0
+        vec![0],
+        // 0
+        vec![0],
+        // 115
+        vec![115],
     ];
     kani::concrete_playback_run(concrete_vals, c19_str_duration_20_digits);
 }
@@ -74,48 +42,16 @@ fn kani_concrete_playback_c19_str_duration_20_digits_2810586809988379323() {
 /// The execution path may also differ, which can be used to refine the stub
 /// logic.
 #[test]
-fn kani_concrete_playback_c19_str_duration_20_digits_6000034227861567154() {
+fn kani_concrete_playback_c19_str_duration_20_digits_1362296009104668916() {
     let concrete_vals: Vec<Vec<u8>> = vec![
         // 1
         vec![1],
-        // 8
-        vec![8],
-        // 4
-        vec![4],
-        // 4
-        vec![4],
         // 6
         vec![6],
-        // 7
-        vec![7],
-        // 4
-        vec![4],
-        // 4
-        vec![4],
         // 0
         vec![0],
-        // 7
-        vec![7],
         // 3
         vec![3],
-        // 7
-        vec![7],
-        // 0
-        vec![0],
-        // 9
-        vec![9],
-        // 5
-        vec![5],
-        // 5
-        vec![5],
-        // 1
-        vec![1],
-        // 6
-        vec![6],
-        // 1
-        vec![1],
-        // 9
-        vec![9],
         // 119
         vec![119],
     ];
@@ -135,7 +71,7 @@ fn kani_concrete_playback_c19_str_duration_20_digits_6000034227861567154() {
 /// The execution path may also differ, which can be used to refine the stub
 /// logic.
 #[test]
-fn kani_concrete_playback_c19_str_duration_20_digits_2442130884614767660() {
+fn kani_concrete_playback_c19_str_duration_20_digits_18172415890989784288() {
     let concrete_vals: Vec<Vec<u8>> = vec![
         // 0
         vec![0],
@@ -143,40 +79,8 @@ fn kani_concrete_playback_c19_str_duration_20_digits_2442130884614767660() {
         vec![7],
         // 7
         vec![7],
-        // 9
-        vec![9],
-        // 8
-        vec![8],
-        // 2
-        vec![2],
-        // 8
-        vec![8],
-        // 1
-        vec![1],
-        // 3
-        vec![3],
-        // 5
-        vec![5],
-        // 0
-        vec![0],
-        // 2
-        vec![2],
         // 7
         vec![7],
-        // 4
-        vec![4],
-        // 0
-        vec![0],
-        // 4
-        vec![4],
-        // 5
-        vec![5],
-        // 8
-        vec![8],
-        // 8
-        vec![8],
-        // 9
-        vec![9],
         // 119
         vec![119],
     ];
@@ -196,109 +100,16 @@ fn kani_concrete_playback_c19_str_duration_20_digits_2442130884614767660() {
 /// The execution path may also differ, which can be used to refine the stub
 /// logic.
 #[test]
-fn kani_concrete_playback_c19_str_duration_20_digits_17048196464548705697() {
+fn kani_concrete_playback_c19_str_duration_20_digits_13742515842254601902() {
     let concrete_vals: Vec<Vec<u8>> = vec![
         // 0
         vec![0],
-        // 1
-        vec![1],
-        // 1
-        vec![1],
-        // 5
-        vec![5],
         // 2
         vec![2],
-        // 9
-        vec![9],
         // 2
         vec![2],
-        // 1
-        vec![1],
-        // 5
-        vec![5],
-        // 0
-        vec![0],
-        // 4
-        vec![4],
-        // 6
-        vec![6],
-        // 0
-        vec![0],
-        // 6
-        vec![6],
-        // 8
-        vec![8],
-        // 4
-        vec![4],
-        // 6
-        vec![6],
-        // 9
-        vec![9],
-        // 5
-        vec![5],
-        // 9
-        vec![9],
-        // 119
-        vec![119],
-    ];
-    kani::concrete_playback_run(concrete_vals, c19_str_duration_20_digits);
-}
-
-/// Check for `assertion`: "attempt to multiply with overflow"
-///
-/// # Warning
-///
-/// Concrete playback tests combined with stubs or contracts is highly
-/// experimental, and subject to change.
-///
-/// The original harness has stubs which are not applied to this test.
-/// This may cause a mismatch of non-deterministic values if the stub
-/// creates any non-deterministic value.
-/// The execution path may also differ, which can be used to refine the stub
-/// logic.
-#[test]
-fn kani_concrete_playback_c19_str_duration_20_digits_12539928291237672369() {
-    let concrete_vals: Vec<Vec<u8>> = vec![
-        // 0
-        vec![0],
-        // 7
-        vec![7],
-        // 7
-        vec![7],
-        // 9
-        vec![9],
-        // 8
-        vec![8],
         // 2
         vec![2],
-        // 8
-        vec![8],
-        // 1
-        vec![1],
-        // 3
-        vec![3],
-        // 5
-        vec![5],
-        // 0
-        vec![0],
-        // 2
-        vec![2],
-        // 7
-        vec![7],
-        // 4
-        vec![4],
-        // 0
-        vec![0],
-        // 4
-        vec![4],
-        // 5
-        vec![5],
-        // 8
-        vec![8],
-        // 8
-        vec![8],
-        // 9
-        vec![9],
         // 100
         vec![100],
     ];
@@ -318,48 +129,16 @@ fn kani_concrete_playback_c19_str_duration_20_digits_12539928291237672369() {
 /// The execution path may also differ, which can be used to refine the stub
 /// logic.
 #[test]
-fn kani_concrete_playback_c19_str_duration_20_digits_6211795477091188011() {
+fn kani_concrete_playback_c19_str_duration_20_digits_3386377103401664169() {
     let concrete_vals: Vec<Vec<u8>> = vec![
-        // 1
-        vec![1],
         // 0
         vec![0],
-        // 3
-        vec![3],
-        // 0
-        vec![0],
-        // 7
-        vec![7],
-        // 9
-        vec![9],
         // 2
         vec![2],
         // 1
         vec![1],
-        // 5
-        vec![5],
-        // 1
-        vec![1],
-        // 0
-        vec![0],
-        // 7
-        vec![7],
-        // 2
-        vec![2],
-        // 8
-        vec![8],
-        // 8
-        vec![8],
-        // 0
-        vec![0],
-        // 6
-        vec![6],
-        // 7
-        vec![7],
         // 9
         vec![9],
-        // 3
-        vec![3],
         // 104
         vec![104],
     ];
@@ -379,46 +158,14 @@ fn kani_concrete_playback_c19_str_duration_20_digits_6211795477091188011() {
 /// The execution path may also differ, which can be used to refine the stub
 /// logic.
 #[test]
-fn kani_concrete_playback_c19_str_duration_20_digits_663435933830414211() {
+fn kani_concrete_playback_c19_str_duration_20_digits_2458603142006166464() {
     let concrete_vals: Vec<Vec<u8>> = vec![
-        // 1
-        vec![1],
-        // 3
-        vec![3],
         // 0
         vec![0],
-        // 7
-        vec![7],
-        // 7
-        vec![7],
         // 0
         vec![0],
-        // 5
-        vec![5],
-        // 3
-        vec![3],
-        // 4
-        vec![4],
-        // 3
-        vec![3],
-        // 5
-        vec![5],
-        // 8
-        vec![8],
-        // 5
-        vec![5],
-        // 4
-        vec![4],
-        // 2
-        vec![2],
         // 0
         vec![0],
-        // 6
-        vec![6],
-        // 7
-        vec![7],
-        // 9
-        vec![9],
         // 5
         vec![5],
         // 109
